@@ -104,7 +104,62 @@ def build(desc):
     a = np.empty(len(vals), dtype=dt)
     for i, v in enumerate(vals):
         a[i] = v
-    return a.reshape(d["shape"])
+    return relayout(a.reshape(d["shape"]), d.get("layout"))
+
+
+LAYOUTS = ["C", "F", "T", "strided", "neg", "swap", "ro", "view"]
+
+
+def relayout(a: np.ndarray, layout):
+    """the same logical array (shape, dtype up to byte order, C-order contents) in another memory
+    layout.  The memory layout is below the model: `flat` is always the logical C-order content."""
+    nd = a.ndim
+    if layout in (None, "C"):
+        return a
+    if nd == 0 and layout in ("F", "T", "neg"):         # (np.asfortranarray etc. would make it 1-d)
+        layout = "view"
+    if layout == "F":                                   # Fortran order
+        return np.asfortranarray(a)
+    if layout == "T":                                   # transposed view of a C array
+        return np.ascontiguousarray(a.T).T
+    if layout == "view":                                # 0-d view / first two axes swapped
+        if nd == 0:
+            big = np.zeros(3, dtype=a.dtype)
+            big[1] = a
+            return big[1:2].reshape(())
+        if nd == 1:
+            return np.concatenate([a, a])[a.shape[0]:]
+        return np.ascontiguousarray(np.swapaxes(a, 0, 1)).swapaxes(0, 1)
+    if layout == "strided":                             # big[1::2, 1::2, ...]
+        if nd == 0:
+            return relayout(a, "view")
+        big = np.zeros(tuple(2 * n + 1 for n in a.shape), dtype=a.dtype)
+        v = big[tuple(slice(1, 2 * n + 1, 2) for n in a.shape)]
+        v[...] = a
+        return v
+    if layout == "neg":                                 # negative strides on every axis
+        if nd == 0:
+            return a
+        sl = (slice(None, None, -1),) * nd
+        return a[sl].copy()[sl]
+    if layout == "swap":                                # non-native byte order
+        return a.astype(a.dtype.newbyteorder())
+    if layout == "ro":                                  # read-only
+        b = a.copy()
+        b.setflags(write=False)
+        return b
+    raise ValueError(layout)
+
+
+def canon(a: np.ndarray) -> np.ndarray:
+    """native byte order, C-contiguous copy: the logical array"""
+    if a.dtype.kind == "O":
+        return a
+    return np.ascontiguousarray(a, dtype=a.dtype.newbyteorder("="))
+
+
+def same_dtype(a, b) -> bool:
+    return np.dtype(a).newbyteorder("=") == np.dtype(b).newbyteorder("=")
 
 
 def np_desc(a: np.ndarray):
@@ -115,13 +170,14 @@ def np_desc(a: np.ndarray):
 
 
 def same_array(a, b) -> bool:
+    """logical equality: shape, dtype up to byte order, C-order contents bit for bit"""
     if not (isinstance(a, np.ndarray) and isinstance(b, np.ndarray)):
         return False
-    if a.shape != b.shape or a.dtype != b.dtype:
+    if a.shape != b.shape or not same_dtype(a.dtype, b.dtype):
         return False
     if a.dtype.kind == "O":
         return a.ravel().tolist() == b.ravel().tolist()
-    return np.ascontiguousarray(a).tobytes() == np.ascontiguousarray(b).tobytes()
+    return canon(a).tobytes() == canon(b).tobytes()
 
 
 def exc_name(e: BaseException) -> str:
@@ -142,18 +198,25 @@ def run_ser(case):
     fails = []
     is_arr = [isinstance(e, np.ndarray) for e in elems]
     homog = all(is_arr) and len({(e.ndim, e.dtype) for e in elems}) <= 1
-    obs = {}
+    # same logical dtype in different byte orders: numpy calls these dtypes different; either
+    # outcome is accepted and the (byte-order-free) model is not consulted
+    mixed_bo = (not homog) and all(is_arr) and len({(e.ndim, e.dtype.newbyteorder("=")) for e in elems}) <= 1
+    obs = {"noncontig": sum(1 for e in elems if isinstance(e, np.ndarray) and not e.flags.c_contiguous)}
+    if mixed_bo:
+        obs["skip_model"] = True
     try:
         v, m, d = ser({"values": vals, "missing": miss})
     except Exception as ex:  # noqa: BLE001
         obs["ser"] = {"exc": exc_name(ex)}
+        if mixed_bo:
+            return obs, fails
         if homog:
             fails.append(("C11:encode-raises", f"serialize raised {exc_name(ex)} on a homogeneous object array", obs["ser"], "ok"))
         elif exc_name(ex) != "ValueError":
             fails.append(("C11:encode-wrong-exception", f"serialize raised {exc_name(ex)} (documented: ValueError)", obs["ser"], "ValueError"))
         return obs, fails
     obs["ser"] = {"ok": {"values": enc_arr(v), "data": enc_arr(d)}}
-    if not homog:
+    if not homog and not mixed_bo:
         fails.append(("C11:accepts-inhomogeneous", "serialize accepted entries of differing rank/dtype or a non-array", obs["ser"], "ValueError"))
         return obs, fails
     if m is not miss:
@@ -198,7 +261,7 @@ def ser_requests(case, obs):
     """the model collapses unicode/bytes widths into one `str`/`bytes` dtype: object arrays mixing
     widths (numpy: different dtypes -> ValueError) are judged by the oracle only"""
     ws = {d["np"].get("width") for d in case["elems"] if d is not None and "np" in d and d["np"]["dtype"] in ("str", "bytes")}
-    if len(ws) > 1:
+    if len(ws) > 1 or obs.get("skip_model"):
         return []
     reqs = [{"op": "ser", "elems": [d["np"] if (d is not None and "np" in d) else None for d in case["elems"]]}]
     if "ok" in obs.get("ser", {}):
@@ -230,7 +293,7 @@ def run_de(case):
         elif rows is not None:
             fl = enc_arr(d)["flat"]
             for r, x in zip(rows, back):
-                if list(x.shape) != r[1:] or enc_arr(x)["flat"] != fl[r[0]: r[0] + math.prod(r[1:])] or x.dtype != d.dtype:
+                if list(x.shape) != r[1:] or enc_arr(x)["flat"] != fl[r[0]: r[0] + math.prod(r[1:])] or not same_dtype(x.dtype, d.dtype):
                     fails.append(("C11:decode-wrong-slice", "decoded element is not the addressed slice", enc_arr(x), r))
     except Exception as ex:  # noqa: BLE001
         obs = {"exc": exc_name(ex)}
@@ -327,7 +390,8 @@ def run_construct(case):
         obs_c = {"ok": [dname(dt), int(nd)]}
     except Exception as ex:  # noqa: BLE001
         obs_c = {"exc": exc_name(ex)}
-    res = {"construct": obs, "common": obs_c}
+    res = {"construct": obs, "common": obs_c,
+           "noncontig": sum(1 for o in objs if isinstance(o, np.ndarray) and not o.flags.c_contiguous)}
     if "quirk" in exp:
         res["numpy_quirk"] = True
     elif "exc" in exp:
@@ -343,13 +407,13 @@ def run_construct(case):
         else:
             got = p["values"]
             gflags = obs["ok"]["flags"]
-            if any(not isinstance(x, np.ndarray) for x in got) or len({(x.dtype, x.ndim) for x in got}) > 1:
+            if any(not isinstance(x, np.ndarray) for x in got) or len({(x.dtype.newbyteorder("="), x.ndim) for x in got}) > 1:
                 fails.append(("C11:normalise-mixed-dtype-or-rank", "entries of the result differ in dtype or rank", obs, None))
             elif gflags != flags or ((p["missing"] is None) != (not any(flags))):
                 fails.append(("C11:missing-flags-wrong", "missing flags differ from the None positions", gflags, flags))
             else:
                 for x, e, f in zip(got, vals, flags):
-                    ok = (x.shape == e.shape and x.dtype == e.dtype) if f else same_array(x, e)
+                    ok = (x.shape == e.shape and same_dtype(x.dtype, e.dtype)) if f else same_array(x, e)
                     if not ok:
                         fails.append(("C11:normalise-wrong-contents",
                                       "entry differs from the input after the safe common cast and leading-axis padding",
@@ -440,7 +504,7 @@ def run_store(case):
         ok = (x.shape == e.shape and dname(x.dtype) == dname(e.dtype)) if flags[i] else (
             x.shape == e.shape and dname(x.dtype) == dname(e.dtype)
             and (x.ravel().tolist() == e.ravel().tolist() if x.dtype.kind in "US" else
-                 x.dtype == e.dtype and np.ascontiguousarray(x).tobytes() == np.ascontiguousarray(e).tobytes()))
+                 same_array(x, e)))
         if not ok:
             fails.append(("C11:store-roundtrip-mismatch", f"entry {i} read back from the store differs", enc_arr(x), enc_arr(e)))
             break
@@ -565,6 +629,8 @@ def alphabet():
             np_desc(np.array(-(2 ** 63) + 513, dtype=np.int64)), np_desc(np.array([[1.25, -0.0]], dtype=np.float32)),
             np_desc(np.array([70000], dtype=np.uint32)), np_desc(np.array([-300], dtype=np.int16)),
             np_desc(np.array([60000, 1], dtype=np.uint16)),
+            np_desc(np.arange(6, dtype=np.int32).reshape(2, 3) - 2),
+            np_desc((np.arange(8, dtype=np.float64).reshape(2, 2, 2) - 3) / 4),
         ]
     return ALPHABET
 
@@ -633,6 +699,47 @@ def gen_store(rng, n):
         if all(x is None for x in items):
             items.append(np_desc(fill(dt, [1] * r, 3)))
         yield {"kind": "store", "items": items, "fmt": 2 + (i % 2)}
+
+
+def layout_variants(cases, nvar):
+    """every case as generated (C layout) plus `nvar` copies in which each element array is presented
+    in another memory layout with the same logical contents (rotating through LAYOUTS[1:])."""
+    import copy
+
+    alt = LAYOUTS[1:]
+    noswap = [x for x in alt if x != "swap"]
+    k = 0
+    for c in cases:
+        yield c
+        key = "elems" if c["kind"] == "ser" else "items" if c["kind"] in ("construct", "store") else None
+        if c["kind"] == "de":
+            for v in range(nvar):
+                k += 1
+                c2 = copy.deepcopy(c)
+                c2["data"]["layout"] = [x for x in alt if x not in ("F", "T")][k % 5]
+                yield c2
+            continue
+        descs = c[key]
+        if not any(d is not None and "np" in d for d in descs):
+            continue
+        for v in range(nvar):
+            k += 1
+            c2 = copy.deepcopy(c)
+            if c["kind"] == "construct" and len(descs) > 2:
+                c2["perms"] = False                     # order independence is the C-layout run's job
+            all_swap = c["kind"] == "ser" and k % 5 == 0
+            for j, d in enumerate(c2[key]):
+                if d is not None and "np" in d:
+                    pool = noswap if c["kind"] == "ser" else alt
+                    d["np"]["layout"] = "swap" if all_swap else pool[(k + 3 * j) % len(pool)]
+            yield c2
+
+
+def layouts_of(case):
+    if case["kind"] == "de":
+        return [case["data"].get("layout", "C")]
+    key = "elems" if case["kind"] == "ser" else "items"
+    return [d["np"].get("layout", "C") for d in case[key] if d is not None and "np" in d]
 
 
 def corpus():
@@ -740,17 +847,27 @@ def run(ck: common.Check):
                "(mixed rank/dtype/non-array) sequences + adversarial offset tables for the decoder + (normalise) every "
                "multiset of <=3 entries (and a sample of 4) over a 20-entry alphabet of None/scalars/nested lists/typed "
                "arrays, each run in every distinct permutation + seeded random longer sequences + a sample through a "
-               "zarr store (formats 2 and 3); non-trivial = at least one (non-None) entry; distinct = distinct canonical JSON")
+               "zarr store (formats 2 and 3); every generated case is run as generated (C-contiguous arrays) and again with each "
+               "element array in another memory layout with the same logical contents (Fortran order, transposed and "
+               "axis-swapped views, strided slices, negative strides, non-native byte order, read-only, 0-d/offset views; "
+               "1 variant per case in quick, 2 in thorough, rotating); non-trivial = at least one (non-None) entry; distinct = distinct canonical JSON")
     cases = list(corpus())
     n_corpus = len(cases)
-    cases += list(gen_ser_exhaustive(ck))
-    cases += list(gen_ser_invalid(ck.rng, 400 if ck.quick else 4000))
-    cases += list(gen_ser_random(ck.rng, 500 if ck.quick else 8000))
-    cases += list(gen_de_tables(ck.rng, 800 if ck.quick else 8000))
-    cases += list(gen_construct_exhaustive(ck))
-    cases += list(gen_construct_random(ck.rng, 800 if ck.quick else 12000))
-    cases += list(gen_store(ck.rng, 120 if ck.quick else 1500))
+    gen = []
+    gen += list(gen_ser_exhaustive(ck))
+    gen += list(gen_ser_invalid(ck.rng, 400 if ck.quick else 4000))
+    gen += list(gen_ser_random(ck.rng, 500 if ck.quick else 8000))
+    gen += list(gen_de_tables(ck.rng, 800 if ck.quick else 8000))
+    gen += list(gen_construct_exhaustive(ck))
+    gen += list(gen_construct_random(ck.rng, 800 if ck.quick else 12000))
+    gen += list(gen_store(ck.rng, 120 if ck.quick else 1500))
+    cases += list(layout_variants(gen, 1 if ck.quick else 2))
     ck.extra["corpus_cases"] = n_corpus
+    lay_hist: dict = {}
+    for c in cases:
+        for l in layouts_of(c):
+            lay_hist[l] = lay_hist.get(l, 0) + 1
+    ck.extra["layout_histogram_elements"] = lay_hist
 
     results = common.pmap(_work, cases, chunksize=64)
 
@@ -780,10 +897,12 @@ def run(ck: common.Check):
     if answers is None:
         ck.broken.append({"what": "driver Drivers/C11.lean", "detail": drv.broken})
     n_perm = 0
+    n_noncontig = 0
     n_unmodelled = 0
     for idx, (c, (obs, fails)) in enumerate(zip(cases, results)):
         ck.case(c, tag_of(c, obs), nontrivial=nontrivial(c))
         n_perm += obs.get("perms", 0) if isinstance(obs, dict) else 0
+        n_noncontig += obs.get("noncontig", 0) if isinstance(obs, dict) else 0
         for key, what, observed, expected in fails:
             ck.fail(key, what, c, observed, expected)
     if answers is not None:
@@ -821,6 +940,7 @@ def run(ck: common.Check):
                     if not same and not (len(c["items"]) == 0):
                         ck.corr_broken("C11:store-layout", c, st, {k: mo.get(k) for k in ("values", "data")})
     ck.extra["permutations_run"] = n_perm
+    ck.extra["non_c_contiguous_elements_presented"] = n_noncontig
     ck.extra["model_unmodelled"] = n_unmodelled
     ck.assumptions += [
         "numpy's dtype inference (np.asarray of nested lists/scalars), astype along safe casts and result_type are "
@@ -830,6 +950,9 @@ def run(ck: common.Check):
         "(`unmodelled`); they are covered by the Python oracle (normal form, order independence) only",
         "contents of a missing rank-0 entry are uninitialised memory (np.empty(())): compared on shape and dtype only",
         "offset arithmetic is modelled in unbounded naturals (no uint64 overflow)",
+        "the memory layout of an array (strides, contiguity, byte order, writability) is below the model: `flat` is the "
+        "logical C-order content (`a.ravel().tolist()`), dtypes are compared up to byte order; the harness presents every "
+        "element in several layouts so that a layout-dependent flattening is observed as wrong contents",
         "zarr storage/codec identity per dtype is exercised (formats 2 and 3, MemoryStore), not verified",
     ]
 
